@@ -291,6 +291,100 @@ func (a *ptAnalysis) block(list []ast.Stmt, in map[int]bool) map[int]bool {
 	return cur
 }
 
+// ---------------------------------------------------------------- BasicAuth reads the Authorization header only
+// model/Auth.v decides on the value of Header.Get("Authorization") alone.  The handler BasicAuthMiddleware builds may
+// use its request parameter only as r.Header.Get("Authorization") and by handing r on to next.ServeHTTP; any other use
+// (r.Method, r.URL, r.RemoteAddr, another header, a cookie, a form value ...) means the decision can depend on something
+// the model does not see (an exemption by path, method, address, a second way to present credentials): the middleware
+// is then translated as an unknown one and auth_first_everywhere cannot be proved.
+func (w *World) authReadsOnlyHeader() string {
+	if r, ok := w.passCache["BasicAuthMiddleware"]; ok {
+		return r
+	}
+	r := w.authReadsOnlyHeaderUncached()
+	w.passCache["BasicAuthMiddleware"] = r
+	return r
+}
+
+func (w *World) authReadsOnlyHeaderUncached() string {
+	const fn = "BasicAuthMiddleware"
+	p := w.load(w.module + "/reader/utils/middleware")
+	if p == nil || p.Funcs[fn] == nil || p.Funcs[fn].Body == nil {
+		return "source of " + fn + " not found"
+	}
+	var handler *ast.FuncLit
+	n := 0
+	ast.Inspect(p.Funcs[fn].Body, func(x ast.Node) bool {
+		if fl, ok := x.(*ast.FuncLit); ok && isHandlerSig(fl.Type) {
+			handler = fl
+			n++
+			return false
+		}
+		return true
+	})
+	if handler == nil || n != 1 {
+		return fmt.Sprintf("%s builds %d handler literals (expected one)", fn, n)
+	}
+	ps := handler.Type.Params.List
+	if len(ps[1].Names) != 1 {
+		return fn + ": unnamed request parameter"
+	}
+	rName := ps[1].Names[0].Name
+	// every occurrence of the request identifier must be inside r.Header.Get("Authorization") or be an argument of X.ServeHTTP
+	allowed := map[*ast.Ident]bool{}
+	ast.Inspect(handler.Body, func(x ast.Node) bool {
+		c, ok := x.(*ast.CallExpr)
+		if !ok {
+			return true
+		}
+		s, ok := c.Fun.(*ast.SelectorExpr)
+		if !ok {
+			return true
+		}
+		if s.Sel.Name == "ServeHTTP" && len(c.Args) == 2 {
+			if id, ok := c.Args[1].(*ast.Ident); ok && id.Name == rName {
+				allowed[id] = true
+			}
+		}
+		if s.Sel.Name == "Get" && len(c.Args) == 1 {
+			if hs, ok := s.X.(*ast.SelectorExpr); ok && hs.Sel.Name == "Header" {
+				if id, ok := hs.X.(*ast.Ident); ok && id.Name == rName {
+					if bl, ok := c.Args[0].(*ast.BasicLit); ok {
+						if v, _ := strconv.Unquote(bl.Value); strings.EqualFold(v, "Authorization") {
+							allowed[id] = true
+						}
+					}
+				}
+			}
+		}
+		return true
+	})
+	bad := ""
+	ast.Inspect(handler.Body, func(x ast.Node) bool {
+		if bad != "" {
+			return false
+		}
+		switch t := x.(type) {
+		case *ast.SelectorExpr:
+			if id, ok := t.X.(*ast.Ident); ok && id.Name == rName && !allowed[id] {
+				bad = fmt.Sprintf("%s: the decision reads %s.%s (%s), not only the Authorization header", fn, rName, t.Sel.Name, w.rel(t.Pos()))
+			}
+		case *ast.Ident:
+			if t.Name == rName && !allowed[t] {
+				// reached only for a bare occurrence (selectors are handled above and not descended into)
+				bad = fmt.Sprintf("%s: the request is handed to something other than next.ServeHTTP (%s)", fn, w.rel(t.Pos()))
+			}
+		}
+		if se, ok := x.(*ast.SelectorExpr); ok {
+			if id, ok := se.X.(*ast.Ident); ok && id.Name == rName {
+				return false
+			}
+		}
+		return true
+	})
+	return bad
+}
+
 // ---------------------------------------------------------------- census
 func (w *World) inDead(p token.Pos) bool {
 	ps := w.fset.Position(p)
